@@ -15,6 +15,7 @@
 #include <amgcl/relaxation/iluk.hpp>
 #include <amgcl/relaxation/ilup.hpp>
 #include <amgcl/relaxation/ilut.hpp>
+#include <amgcl/relaxation/as_preconditioner.hpp>
 #include <amgcl/value_type/static_matrix.hpp>
 #include <amgcl/value_type/complex.hpp>
 #include <amgcl/adapter/block_matrix.hpp>
@@ -201,6 +202,21 @@ static void valued_smoothers(const Plan &p, Result &res) {
     res.counts[std::string("valued_smoothers_") + c06v<V>::name()]++;
 }
 
+
+// relaxation::as_preconditioner: apply() must be the smoother's apply() on a copy of the matrix it was given
+template <template <class> class Relax, class P>
+static void as_precond_check(const W &w, const P &prm, Result &res, const char *name, int shape) {
+    typedef amgcl::relaxation::as_preconditioner<DBackend, Relax> AP;
+    AP ap(*w.M, prm); Relax<DBackend> r(*w.M, prm, DBackend::params());
+    std::vector<double> a(w.n), b(w.n);
+    for (long i = 0; i < w.n; ++i) { a[i] = std::numeric_limits<double>::quiet_NaN(); b[i] = std::numeric_limits<double>::infinity(); }
+    ap.apply(w.f, a); r.apply(*w.M, w.f, b);
+    if (first_diff(a, b) != -1 || amgcl::backend::rows(ap.system_matrix()) != (size_t)w.n || crs_digest(ap.system_matrix()) != crs_digest(*w.M)) {
+        Violation v; v.oracle = "apply-equals-sweep-from-zero"; v.add("component", name); v.add("clause", "as_preconditioner"); v.add("shape", shape == 0 ? "family" : shape == 1 ? "tridiagonal" : "arrow");
+        v.detail = "as_preconditioner::apply differs from the smoother's apply(), or its system matrix is not the matrix it was constructed from"; res.fail(v); }
+    res.counts["as_preconditioner_checked"]++;
+}
+
 Plan generate(uint64_t seed, uint64_t run, bool thorough) {
     sim::rng r(seed, "world", run);
     Plan p;
@@ -311,12 +327,12 @@ Result execute(const Plan &p) {
         };
         bool exact_shape = shape != 0;
         switch (rl) {
-        case R_JACOBI: { typedef rx::damped_jacobi<DBackend> R; R::params pr; pr.damping = (float)damping; R r(*w.M, pr, bp); fixed_point(r, "damped_jacobi"); record(r); apply_check(r, 2, "damped_jacobi");
+        case R_JACOBI: { typedef rx::damped_jacobi<DBackend> R; R::params pr; pr.damping = (float)damping; R r(*w.M, pr, bp); fixed_point(r, "damped_jacobi"); record(r); apply_check(r, 2, "damped_jacobi"); as_precond_check<rx::damped_jacobi>(w, pr, res, "damped_jacobi", shape);
             std::vector<double> x = w.x0; sweep(r, w, x, true, 0);
             for (long i = 0; i < n; ++i) { long double t = w.f[i], d = 1; for (ptrdiff_t j = w.A.ptr[i]; j < w.A.ptr[i+1]; ++j) { t -= (long double)w.A.val[j] * w.x0[w.A.col[j]]; if (w.A.col[j] == i) d = w.A.val[j]; }
                 double want = (double)(w.x0[i] + (long double)(double)pr.damping / d * t); if (!(std::fabs(x[i] - want) <= 1e-12 * (1 + std::fabs(want)))) { res.fail(sig("definition", "x+omega*D^-1*(f-Ax)", fmt("row %ld: %.17g, definition %.17g", i, x[i], want))); break; } }
             break; }
-        case R_GS: { typedef rx::gauss_seidel<DBackend> R; R::params ps, pp; ps.serial = true; pp.serial = false; R rs(*w.M, ps, bp), rp(*w.M, pp, bp); fixed_point(rp, "gauss_seidel"); record(rp); apply_check(rp, 1, "gauss_seidel"); apply_check(rs, 1, "gauss_seidel-serial");
+        case R_GS: { typedef rx::gauss_seidel<DBackend> R; R::params ps, pp; ps.serial = true; pp.serial = false; R rs(*w.M, ps, bp), rp(*w.M, pp, bp); fixed_point(rp, "gauss_seidel"); record(rp); apply_check(rp, 1, "gauss_seidel"); apply_check(rs, 1, "gauss_seidel-serial"); as_precond_check<rx::gauss_seidel>(w, pp, res, "gauss_seidel", shape);
             for (int pre = 1; pre >= 0; --pre) {
                 std::vector<double> xs = w.x0, xp = w.x0, xr = w.x0; sweep(rs, w, xs, pre, 0); sweep(rp, w, xp, pre, 0);
                 if (first_diff(xs, xp) != -1) { long d = first_diff(xs, xp); res.fail(sig("parallel-equals-serial", pre ? "forward" : "backward", fmt("nt=%d row %ld: serial %.17g level-scheduled %.17g", nt, d, xs[d], xp[d]))); }
@@ -326,12 +342,12 @@ Result execute(const Plan &p) {
             }
             if (!rp.is_serial) res.counts["gs_parallel_path"]++;
             break; }
-        case R_SPAI0: { typedef rx::spai0<DBackend> R; R r(*w.M, R::params(), bp); fixed_point(r, "spai0"); record(r); apply_check(r, 0, "spai0");
+        case R_SPAI0: { typedef rx::spai0<DBackend> R; R r(*w.M, R::params(), bp); fixed_point(r, "spai0"); record(r); apply_check(r, 0, "spai0"); as_precond_check<rx::spai0>(w, R::params(), res, "spai0", shape);
             std::vector<double> x = w.x0; sweep(r, w, x, true, 0);
             for (long i = 0; i < n; ++i) { long double t = w.f[i], num = 0, den = 0; for (ptrdiff_t j = w.A.ptr[i]; j < w.A.ptr[i+1]; ++j) { t -= (long double)w.A.val[j] * w.x0[w.A.col[j]]; den += (long double)w.A.val[j] * w.A.val[j]; if (w.A.col[j] == i) num += w.A.val[j]; }
                 double want = (double)(w.x0[i] + num / den * t); if (!(std::fabs(x[i] - want) <= 1e-12 * (1 + std::fabs(want)))) { res.fail(sig("definition", "row-wise-least-squares-diagonal", fmt("row %ld: %.17g, definition %.17g", i, x[i], want))); break; } }
             break; }
-        case R_SPAI1: { typedef rx::spai1<DBackend> R; R r(*w.M, R::params(), bp); fixed_point(r, "spai1"); record(r); apply_check(r, 0, "spai1");
+        case R_SPAI1: { typedef rx::spai1<DBackend> R; R r(*w.M, R::params(), bp); fixed_point(r, "spai1"); record(r); apply_check(r, 0, "spai1"); as_precond_check<rx::spai1>(w, R::params(), res, "spai1", shape);
             if (n <= 40) { Eigen::MatrixXd M = extract(r, w, true), D = edense(w.A), G = (M * D - Eigen::MatrixXd::Identity(n, n)) * D.transpose();
                 double sc = D.cwiseAbs().maxCoeff(); sc = sc * sc;
                 for (long i = 0; i < n; ++i) for (ptrdiff_t j = w.A.ptr[i]; j < w.A.ptr[i+1]; ++j) if (!(std::fabs(G(i, w.A.col[j])) <= 1e-9 * sc * (1 + M.row(i).cwiseAbs().maxCoeff()))) { res.fail(sig("definition", "least-squares-normal-equations", fmt("row %ld, pattern column %ld: gradient %.3g", i, (long)w.A.col[j], G(i, w.A.col[j])))); i = n; break; }
@@ -367,7 +383,7 @@ Result execute(const Plan &p) {
             std::vector<double> xs = w.x0, xp = w.x0; sweep(rs, w, xs, true, 0); sweep(rp, w, xp, true, 0); \
             { double d = max_abs_diff(xs, xp); if (!(d <= 1e-10 * (1 + max_abs(xs)))) res.fail(sig("parallel-equals-serial", "level-scheduled-triangular-solve", fmt("nt=%d: max difference %.3g", nt, d))); } \
             res.counts["ilu_parallel_path"]++; damping = (double)(float)damping; \
-            apply_check(rs, 2, #T "-serial"); apply_check(rp, 2, #T); \
+            apply_check(rs, 2, #T "-serial"); apply_check(rp, 2, #T); as_precond_check<rx::T>(w, pp, res, #T, shape); \
             if (PATTERN_OK) lu_identity(rs, false, "pattern-of-A"); if (EXACT_OK) lu_identity(rs, true, "exact-factors-fit"); EXTRA; }
         case R_ILU0: ILU_BLOCK(ilu0, (void)0, true, exact_shape, (void)0) break;
         case R_ILUK: ILU_BLOCK(iluk, ps.k = pp.k = (int)k, true, exact_shape || k > n, iluk_reference(rs)) break;
